@@ -363,6 +363,8 @@ def gen_cases(rng, tier, budget):
                 if na != "none" and na not in bad_aaas:
                     assigned = na[-8:]
                     reqs = reqs + [[opt(3, assigned)], [opt(3, assigned)], [opt(3, assigned), opt(129, "08080808")]]
+            elif r < 0.045 and evs.count("T") < 9:
+                evs.append("T")      # restart timer expires, restart counter > 0: the request is retransmitted
             elif r < 0.09:
                 evs.append("D")      # the subscriber renegotiates LCP (real onLCPDown), no new AAA answer yet
             elif r < 0.13:
@@ -437,6 +439,8 @@ def gen_cases(rng, tier, budget):
                 evs.append("D")
             else:
                 evs.append("R")
+            if rng.random() < 0.15 and evs.count("T") < 9:
+                evs.append("T")
         if i % 5 == 0:
             evs = ["e1"] + evs           # the very first thing the subscriber does: loop our request back
         cases.append("s6 %s %s" % (mac, " ".join(evs)))
@@ -464,14 +468,18 @@ def gen_cases(rng, tier, budget):
                                                    [opt(1, "0200"), opt(5, "0a0b0c0d")], [opt(5, "0102")]])))
             else:
                 evs.append("j" + wire(rng.choice([[opt(5, "01020304")], [opt(3, "c22305")], [opt(1, "05d4")]])))
+            if rng.random() < 0.15 and evs.count("T") < 9:
+                evs.append("T")
         if i % 5 == 0:
             evs = ["e1"] + evs
         cases.append("sl %s %s" % (start, " ".join(evs)))
+        if start == "fresh" and i % 3 == 0:
+            cases.append("ll fresh %s" % " ".join(evs))      # the same packets against LCP of an LNS session
     return cases
 
 
 def route(case):
-    return "sess" if case.startswith(("sess", "s6", "sl")) else ("lns" if case.startswith(("lns", "l6")) else "ppp")
+    return "sess" if case.startswith(("sess", "s6", "sl")) else ("lns" if case.startswith(("lns", "l6", "ll")) else "ppp")
 
 
 # ---------------------------------------------------------------- reading output lines
@@ -672,9 +680,9 @@ def _monitor(case, impl, out):
                     for t, d in os:
                         if t != 1 or len(d) != 16 or d == "00" * 8 or d == f[2]:
                             hit("IPv6CP Configure-Ack carries %d.%s" % (t, d))
-        elif f[0] == "sl":
+        elif f[0] in ("sl", "ll"):
             parts = impl.split(" | ")
-            wire_m, clean = None, True
+            wire_m, clean, seen_scr = None, True, False
             if f[1].startswith("restore:") and f[1][8:] != "00000000":
                 wire_m = f[1][8:]      # what the link announced before the restart: the checkpointed magic
             for ev, p in zip(["start"] + f[2:], parts):
@@ -690,13 +698,14 @@ def _monitor(case, impl, out):
                             if ty == 5 and d == lm and lm != "00000000":
                                 hit("LCP Configure-Ack carries its own magic number %s" % d)
                             if ty == 5 and clean and wire_m is not None and d == wire_m:
-                                hit("LCP acknowledged magic number %s, which its own outstanding Configure-Request "
-                                    "announces" % d)
+                                hit("LCP acknowledged magic number %s, which %s" % (
+                                    d, "its own outstanding Configure-Request announces" if seen_scr else
+                                    "is its own (the magic the link announced before the restart)"))
                 for t in toks:
                     if t.startswith("scr:"):
                         ms = [d for ty, d in parse_opts(t.split(":", 1)[1]) if ty == 5]
                         wire_m = ms[0] if ms else None
-                        clean = True
+                        clean, seen_scr = True, True
         elif f[0] in ("s6", "l6"):
             parts = impl.split(" | ")
             wire_id, clean = None, True   # identifier in the BNG's last Configure-Request; no learning since
@@ -808,7 +817,7 @@ def nontrivial(case, out):
         return "A=" in out and len(case.split()) > (5 if k == "hi" else 3)
     if k == "fsm":
         return not out.startswith("- ;")
-    if k in ("s6", "sl", "l6"):
+    if k in ("s6", "sl", "l6", "ll"):
         return "sca:" in out or "scn:" in out
     return "up=1" in out
 
@@ -855,7 +864,7 @@ def shrink(case):
             if len(b) <= 24:
                 for i in range(len(b)):
                     yield " ".join(f[:-1] + ["".join(b[:i] + b[i + 1:]) or "-"])
-    elif k in ("sess", "lns", "s6", "sl", "l6"):
+    elif k in ("sess", "lns", "s6", "sl", "l6", "ll"):
         evs = f[2:]
         for i in range(len(evs)):
             if len(evs) > 1:
@@ -863,12 +872,14 @@ def shrink(case):
 
 
 def distribution(cases, impl):
-    d = {"ipcp": 0, "lcp": 0, "v6": 0, "hi": 0, "hl": 0, "h6": 0, "history_ops": 0, "sess_reauth": 0, "fsm": 0, "sess": 0, "lns": 0, "s6": 0, "s6_echo": 0, "sl": 0, "sl_echo": 0, "sl_restored": 0, "l6": 0, "sess_alloc": 0, "sess_conflict": 0, "options_classified": 0, "acked": 0, "nakked": 0,
+    d = {"ipcp": 0, "lcp": 0, "v6": 0, "hi": 0, "hl": 0, "h6": 0, "history_ops": 0, "sess_reauth": 0, "fsm": 0, "sess": 0, "lns": 0, "s6": 0, "s6_echo": 0, "sl": 0, "sl_echo": 0, "sl_restored": 0, "l6": 0, "ll": 0, "timeouts": 0, "sess_alloc": 0, "sess_conflict": 0, "options_classified": 0, "acked": 0, "nakked": 0,
          "rejected": 0, "fsm_sca": 0, "fsm_scn": 0, "fsm_scj": 0, "fsm_silent": 0, "sess_opened": 0,
          "max_options_in_request": 0, "panic_or_hang": 0}
     for c, o in zip(cases, impl):
         k = c.split(" ", 1)[0]
         d[k] = d.get(k, 0) + 1
+        if k in ("sess", "lns", "s6", "l6", "sl", "ll"):
+            d["timeouts"] += c.split().count("T")
         if o is None:
             continue
         if o.startswith(("panic", "hang")):
